@@ -522,22 +522,33 @@ func ruleF6(w *World, r *Report) {
 			continue
 		}
 		set := map[string]bool{}
-		eachInstr(fn, func(in ssa.Instruction) {
-			if st, ok := in.(*ssa.Store); ok {
-				if fa, ok := st.Addr.(*ssa.FieldAddr); ok {
-					if _, _, f, ok := fieldOf(fa); ok {
-						set[f] = true
+		collect := func(g *ssa.Function, only map[string]bool) {
+			if g == nil {
+				return
+			}
+			eachInstr(g, func(in ssa.Instruction) {
+				if st, ok := in.(*ssa.Store); ok {
+					if fa, ok := st.Addr.(*ssa.FieldAddr); ok {
+						if _, _, f, ok := fieldOf(fa); ok && (only == nil || only[f]) {
+							set[f] = true
+						}
 					}
 				}
-			}
-			if c, ok := in.(*ssa.Call); ok && strings.HasSuffix(staticCalleeName(c), ".Copy") {
-				if fa, ok := c.Common().Args[0].(*ssa.FieldAddr); ok {
-					if _, _, f, ok := fieldOf(fa); ok {
-						set[f] = true
+				if c, ok := in.(*ssa.Call); ok && strings.HasSuffix(staticCalleeName(c), ".Copy") {
+					if fa, ok := c.Common().Args[0].(*ssa.FieldAddr); ok {
+						if _, _, f, ok := fieldOf(fa); ok && (only == nil || only[f]) {
+							set[f] = true
+						}
 					}
 				}
-			}
-		})
+			})
+		}
+		collect(fn, nil)
+		// fields that carry no new content may equally be wiped by the matching free routine
+		// (the repo does both, defensively): chain links of a version handle, the cached
+		// location of a node handle
+		freeOf := map[string]string{"(*Collection).mkNodeLoc": "(*Collection).freeNodeLoc", "(*Collection).mkRootNodeLoc": "(*Collection).freeRootNodeLoc"}
+		collect(w.Fn(freeOf[name]), map[string]bool{"chainedCollection": true, "chainedRootNodeLoc": true, "loc": true})
 		var missing []string
 		all := append([]string{}, fields...)
 		if name == "(*Collection).mkNode" {
